@@ -114,6 +114,7 @@ printing) is never compared; it is retried or skipped and counted.
 | C17 | reference model | 300 programs, ~3800 probes: block calls (do/end, braces) on arrays, hashes, integers, strings, ranges, with and without arguments, generated configured classes; 0-3 parameters, shadowing, nesting, block locals; an outermost block outside a method ends one time in three in a reported statement (undefined method, Integer + String) |
 | C18 | relational (preload split) | a program split at nesting-aware top-level boundaries into 1-3 preloaded files + target vs. the whole program; one list in eight also names a file that does not exist; one case in five black-box direct |
 | C19-C21 | relational (configuration pairs) | `cfgrel.go`: renamed shipped files, classes split over files (`extends` in one or all parts, overloads kept together), extra unmentioned classes (fresh, namespaced, reusing user-class, module, core-class short names, forward-referenced superclasses), long vs compact notation (unions up to four members, Untyped members, optional/rest parameters and nilable returns of a class of another namespace, arrays of arrays); the listed split-overloads finding is told apart by a third configuration (section 11.6) |
+| C12 (added) | state-invariant hook | besides the shipped configuration: generated configurations (keywords in any order and in front of positionals) whose every method is called and then redeclared in a subclass with the same keyword names; subclasses of `Test` and `Dir` redeclaring their keyword methods |
 | C22 | reference model over -i / --define / --hover | 150 programs, ~1800 runs: def rows, c//i/ tags, visibility in effect (sections, class << self with own sections, nested classes), endless and two-line defs, every call row hovered |
 | C23 | reference model over --suggest | ~240 queries: user hierarchies with unique names (include, extend, both, module functions, factories in a foreign class; part of the chain in another namespace than its superclass, mixins named `Drawing::Mixa`, a singleton block inside a private section), core literals (also of a core class the program reopens), generated configured classes; the cursor on the last row or inside a method body (`obj.`, `Klass.`, `self.` in instance and class methods) |
 | C24 | reference model over --llm-nav | 120 programs, ~800 queries: call sites as multisets of (row, enclosing method, class), totals, callees |
@@ -322,7 +323,15 @@ length and between the owners of one call (C05); namespaced and nested types
 (C21); case-variant keywords, three overloads, omitted required keywords (C25);
 descending argc guards (C26); union receivers and rest parameters inside a
 namespace (C27). Eleven of these extensions exposed genuine defects of the
-unchanged tree, repaired as `fix:` commits.
+unchanged tree, repaired as `fix:` commits. (11) A last round for the eight
+properties that had had two: 11 of 16 missed at first - class-body statement
+pairs (C06), merge on a variable receiver and configurations in compact
+notation (C09), two user classes in one union (C10), generated configurations
+and subclasses that redeclare configured methods (C12: the shape exposed a
+genuine defect, and its repair took the seeded change's effect away),
+`initialize` inside a private section (C16), empty receivers (C17), a preloaded
+file with the target's base name (C22, caught by C18), cross-namespace
+subclasses and endless method bodies (C24).
 
 ### 11.8 Self-validation performed
 
